@@ -443,9 +443,12 @@ def _init_worker():
         common.setup_repo_imports()
         warnings.filterwarnings('ignore')
         from . import recog
+        # models inherited from the parent process were built from module objects that setup_repo_imports() has
+        # just dropped; build the recognisers again from the freshly imported (and instrumented) modules
+        recog._RECOGNIZERS = None
+        instrument()
         recog.recognizers()
         _S['recog'] = recog
-        instrument()
         signal.signal(signal.SIGALRM, _on_alarm)
     except BaseException as e:     # a raising initializer makes Pool respawn workers forever
         import traceback
@@ -512,23 +515,47 @@ def _unit_chunk(args):
     return res, dropped
 
 
-def unit_ops(tasks, nproc=16, timeout=10.0):
-    """Run `tasks` through the instrumented models in worker processes."""
-    by_pair = {}
-    for t in tasks:
-        by_pair.setdefault(t[:3], []).append(t)
-    chunks = []
-    for pair, ts in by_pair.items():
-        size = 40 if pair[0] == 'DateTime' else (100 if pair[0] == 'NumberWithUnit' else 500)
-        for k in range(0, len(ts), size):
-            chunks.append((ts[k:k + size], timeout))
-    chunks.sort(key=lambda c: (0 if c[0][0][0] == 'DateTime' else 1, c[0][0][:3]))
-    ops, dropped = [], 0
-    if not chunks:
-        return ops, dropped
-    mpctx = multiprocessing.get_context('fork')
-    with mpctx.Pool(min(nproc, len(chunks)), initializer=_init_worker) as pool:
-        for part, d in pool.imap(_unit_chunk, chunks):
+class UnitRun:
+    """The instrumented pass, started asynchronously so that it overlaps the plain pipeline pass."""
+
+    def __init__(self, tasks, nproc=16, timeout=10.0, cache=True):
+        import sys
+        from . import spanpipe
+        self.spanpipe = spanpipe
+        self.pool = self.async_res = self.hit = self.key = None
+        self.tasks = tasks
+        if not tasks:
+            self.hit = {'ops': [], 'dropped': 0}
+            return
+        if cache:
+            self.key = spanpipe.cache_key('unit', [[t[0], t[1], t[2], t[3], str(t[4])] for t in tasks] + [timeout],
+                                          sys.modules[__name__], spanpipe)
+            self.hit = spanpipe.cache_get(self.key)
+            if self.hit is not None:
+                return
+        bins = spanpipe.plan_bins(tasks, nproc, scale=2.0)
+        chunks = [([tasks[i] for i in idxs], timeout) for idxs in bins]
+        mpctx = multiprocessing.get_context('fork')
+        self.pool = mpctx.Pool(min(nproc, len(chunks)), initializer=_init_worker)
+        self.async_res = self.pool.map_async(_unit_chunk, chunks, chunksize=1)
+
+    def get(self):
+        if self.hit is not None:
+            return self.hit['ops'], self.hit['dropped'], 'hit'
+        try:
+            parts = self.async_res.get(3000)
+        finally:
+            self.pool.terminate()
+            self.pool.join()
+        ops, dropped = [], 0
+        for part, d in parts:
             ops.extend(part)
             dropped += d
+        if self.key and not dropped:
+            self.spanpipe.cache_put(self.key, {'ops': ops, 'dropped': dropped})
+        return ops, dropped, 'miss'
+
+
+def unit_ops(tasks, nproc=16, timeout=10.0, cache=True):
+    ops, dropped, _ = UnitRun(tasks, nproc, timeout, cache).get()
     return ops, dropped
